@@ -323,81 +323,103 @@ impl<F: Write + Seek> Directory<F> {
         parent_id: u32,
         name: &str,
     ) -> io::Result<()> {
-        // Find the directory entry with the given name below the parent.
-        let mut stream_ids = Vec::new();
+        // Find the directory entry with the given name below the parent,
+        // keeping track of which entry holds the link to it.
+        let mut link_owner_id = parent_id;
         let mut stream_id = self.dir_entry(parent_id).child;
+        let mut num_visited = 0;
         loop {
             debug_assert_ne!(stream_id, consts::NO_STREAM);
-            debug_assert!(!stream_ids.contains(&stream_id));
-            stream_ids.push(stream_id);
+            debug_assert!(num_visited <= self.dir_entries.len());
+            num_visited += 1;
             let dir_entry = self.dir_entry(stream_id);
             match internal::path::compare_names(name, &dir_entry.name) {
                 Ordering::Equal => break,
-                Ordering::Less => stream_id = dir_entry.left_sibling,
-                Ordering::Greater => stream_id = dir_entry.right_sibling,
+                Ordering::Less => {
+                    link_owner_id = stream_id;
+                    stream_id = dir_entry.left_sibling;
+                }
+                Ordering::Greater => {
+                    link_owner_id = stream_id;
+                    stream_id = dir_entry.right_sibling;
+                }
             }
         }
         debug_assert_eq!(self.dir_entry(stream_id).child, consts::NO_STREAM);
 
-        // Restructure the tree.
-        let mut replacement_id = consts::NO_STREAM;
-        loop {
-            let left_sibling = self.dir_entry(stream_id).left_sibling;
-            let right_sibling = self.dir_entry(stream_id).right_sibling;
-            if left_sibling == consts::NO_STREAM
-                && right_sibling == consts::NO_STREAM
-            {
-                break;
-            } else if left_sibling == consts::NO_STREAM {
-                replacement_id = right_sibling;
-                break;
-            } else if right_sibling == consts::NO_STREAM {
-                replacement_id = left_sibling;
-                break;
-            }
+        // Restructure the tree.  Entries are relinked rather than moved to
+        // other slots, so that the stream IDs of all other entries (which
+        // open `Stream` objects hold on to) remain valid.
+        let left_sibling = self.dir_entry(stream_id).left_sibling;
+        let right_sibling = self.dir_entry(stream_id).right_sibling;
+        let replacement_id = if left_sibling == consts::NO_STREAM {
+            right_sibling
+        } else if right_sibling == consts::NO_STREAM {
+            left_sibling
+        } else {
+            // The entry has two children; its in-order predecessor (the
+            // rightmost entry of its left subtree) takes its place.
+            let mut predecessor_parent_id = stream_id;
             let mut predecessor_id = left_sibling;
             loop {
-                stream_ids.push(predecessor_id);
                 let next_id = self.dir_entry(predecessor_id).right_sibling;
                 if next_id == consts::NO_STREAM {
                     break;
                 }
+                predecessor_parent_id = predecessor_id;
                 predecessor_id = next_id;
             }
-            let mut pred_entry = self.dir_entry(predecessor_id).clone();
-            debug_assert_eq!(pred_entry.right_sibling, consts::NO_STREAM);
-            pred_entry.left_sibling = left_sibling;
-            pred_entry.right_sibling = right_sibling;
-            pred_entry.write_to(&mut self.seek_to_dir_entry(stream_id)?)?;
-            *self.dir_entry_mut(stream_id) = pred_entry;
-            stream_id = predecessor_id;
-        }
+            if predecessor_parent_id != stream_id {
+                let predecessor_left =
+                    self.dir_entry(predecessor_id).left_sibling;
+                self.set_right_sibling(
+                    predecessor_parent_id,
+                    predecessor_left,
+                )?;
+                self.set_left_sibling(predecessor_id, left_sibling)?;
+            }
+            self.set_right_sibling(predecessor_id, right_sibling)?;
+            predecessor_id
+        };
         // TODO: recolor nodes
 
         // Remove the entry.
-        debug_assert_eq!(stream_ids.last(), Some(&stream_id));
-        stream_ids.pop();
-        if let Some(&sibling_id) = stream_ids.last() {
-            if self.dir_entry(sibling_id).left_sibling == stream_id {
-                self.dir_entry_mut(sibling_id).left_sibling = replacement_id;
-                let mut sector = self.seek_within_dir_entry(sibling_id, 68)?;
-                sector.write_le_u32(replacement_id)?;
-            } else {
-                debug_assert_eq!(
-                    self.dir_entry(sibling_id).right_sibling,
-                    stream_id
-                );
-                self.dir_entry_mut(sibling_id).right_sibling = replacement_id;
-                let mut sector = self.seek_within_dir_entry(sibling_id, 72)?;
-                sector.write_le_u32(replacement_id)?;
-            }
-        } else {
+        if link_owner_id == parent_id {
+            debug_assert_eq!(self.dir_entry(parent_id).child, stream_id);
             self.dir_entry_mut(parent_id).child = replacement_id;
             let mut sector = self.seek_within_dir_entry(parent_id, 76)?;
             sector.write_le_u32(replacement_id)?;
+        } else if self.dir_entry(link_owner_id).left_sibling == stream_id {
+            self.set_left_sibling(link_owner_id, replacement_id)?;
+        } else {
+            debug_assert_eq!(
+                self.dir_entry(link_owner_id).right_sibling,
+                stream_id
+            );
+            self.set_right_sibling(link_owner_id, replacement_id)?;
         }
         self.free_dir_entry(stream_id)?;
         Ok(())
+    }
+
+    fn set_left_sibling(
+        &mut self,
+        stream_id: u32,
+        value: u32,
+    ) -> io::Result<()> {
+        self.dir_entry_mut(stream_id).left_sibling = value;
+        let mut sector = self.seek_within_dir_entry(stream_id, 68)?;
+        sector.write_le_u32(value)
+    }
+
+    fn set_right_sibling(
+        &mut self,
+        stream_id: u32,
+        value: u32,
+    ) -> io::Result<()> {
+        self.dir_entry_mut(stream_id).right_sibling = value;
+        let mut sector = self.seek_within_dir_entry(stream_id, 72)?;
+        sector.write_le_u32(value)
     }
 
     /// Adds a new (uninitialized) entry to the directory and returns the new
